@@ -63,5 +63,12 @@ History of misses (each led to an extension, after which the change is caught):
 * S_C07b (mailbox closed after the handler if the envelope held the last reference when it was dequeued): needs drop of
   all handles, then an upgrade during the handler -> path-enumeration stage with downgrade/upgrade (c07y).
 * S_C20 (duration of a panicking handler not recorded): no slow handler ever panicked -> `slowpanic` handler outcome.
+* S_C02b (blocking_tell(None) from a spawn_blocking thread returns before the message is accepted when the mailbox is full):
+  C02 only had async-only stress -> blocking and mixed stress stages for C02.
+* S_C08b (on_run kills its own actor and returns Err in the same poll: on_stop gets killed=true): scripted hooks always
+  yielded after a nested operation -> "operation, then finish in the same poll" directives (`then`, model constant NestThen)
+  and kill as a nested operation of on_run.
+* S_C14b (on_stop reached through an on_run error runs outside the task-local scope): on_run never returned Err in the
+  deadlock-detection configurations -> RunOuts includes "err" there.
 """)
 print(len(rows), "seeds")
